@@ -525,6 +525,11 @@ class PVLEncoder(object):
         if len(s) == 0 or not tok.is_unquoted_string():
             return True
 
+        # A bare word that ends in a dash would, at the end of a line, be
+        # taken for a dash-continuation by the ISIS and default loaders.
+        if s.endswith("-"):
+            return True
+
         # Written bare, the text must read back as this very string, which
         # NULL, TRUE, FALSE and the reserved keywords (in any letter case)
         # would not.
